@@ -25,7 +25,7 @@ RULE = ("cases: chunks of kind sequences; executions: filter_output per (sequenc
         "(sequence, criterion) that contain both good and bad sources")
 ASSUMPTIONS = ["best chi^2 never equals the threshold", "n_data >= 1"]
 REQUIRED_CLASSES = ['criterion-chi', 'criterion-cpd', 'auto-names', 'explicit-names', 'input-file', 'input-list', 'all-good', 'all-bad', 'mixed', 'good-by-chi-only', 'good-by-cpd-only',
-                    'length-10', 'one-name-explicit', 'best-chi2-nan-or-inf']
+                    'length-10', 'one-name-explicit', 'best-chi2-nan-or-inf', 'flags-edited-in-place-between-calls']
 TIMEOUT = {'quick': 600, 'thorough': 3000}
 
 CHI_T, CPD_T = 10.0, 3.0
@@ -75,7 +75,7 @@ def _record(kind, idx, meta):
     from sedfitter.source import Source
     best, flags = KINDS[kind]
     s = Source()
-    s.name = 'src%03d_%s' % (idx, kind)
+    s.name = 'src%03d_%s' % (idx // 2 * 2, 'x')        # names repeat in pairs: two sources may carry the same name
     s.x = float(idx)
     s.y = -float(idx)
     s.valid = np.array(flags)
@@ -87,7 +87,7 @@ def _record(kind, idx, meta):
     i.av = np.arange(n) * 0.5
     i.sc = np.arange(n) * -0.25
     i.model_id = np.arange(n)[::-1].copy()
-    i.model_name = np.array(['m%d' % q for q in range(n)], dtype='U30')
+    i.model_name = np.array(['m%d' % q if idx % 2 else ('m%d' % q).ljust(12) for q in range(n)], dtype='U30')        # every other record: names padded to a fixed width
     i.model_fluxes = None if idx % 2 else np.arange(n * len(flags), dtype=float).reshape(n, len(flags))
     i.meta.model_dir, i.meta.filters, i.meta.extinction_law = meta
     return i
@@ -177,9 +177,9 @@ def run_case(ctx, case, rec, d):
                     bc = [canon(_strip(r)) for r in bad]
                     rec.outcome((len(gc), len(bc)))
                     if gc != [want_c[j] for j in exp_good] or bc != [want_c[j] for j in exp_bad]:
-                        gn = [r.source.name for r in good]
-                        bn = [r.source.name for r in bad]
-                        allnames = [r.source.name for r in recs]
+                        gn = ['%s#%d' % (r.source.name, int(r.source.x)) for r in good]
+                        bn = ['%s#%d' % (r.source.name, int(r.source.x)) for r in bad]
+                        allnames = ['%s#%d' % (r.source.name, int(r.source.x)) for r in recs]
                         if sorted(gn + bn) != sorted(allnames):
                             bad_msg = 'the two outputs do not partition the input: good=%r bad=%r' % (gn, bn)
                         elif gn != [allnames[j] for j in exp_good] or bn != [allnames[j] for j in exp_bad]:
@@ -191,5 +191,28 @@ def run_case(ctx, case, rec, d):
                 if bad_msg:
                     kind = 'partition' if 'partition' in bad_msg else 'side-or-order' if 'wrong side' in bad_msg else 'record' if 'altered' in bad_msg else 'other'
                     rec.violation('filter_output|%s|%s' % (kind, crit), sub, {'problem': bad_msg, 'best_chi2': [float(r.chi2[0]) for r in recs], 'n_data': [int(r.source.n_data) for r in recs]})
+        # ---- the same list filtered twice with a flag changed in place in between (n_data of that source changes sides for cpd)
+        if si % 10 == 3 and 'P' in seq:
+            recs = [_record(k, j, meta) for j, k in enumerate(seq)]
+            n += 1
+            g1, b1 = os.path.join(d, 'lg1_%d' % n), os.path.join(d, 'lb1_%d' % n)
+            g2, b2 = os.path.join(d, 'lg2_%d' % n), os.path.join(d, 'lb2_%d' % n)
+            try:
+                filter_output(recs, output_good=g1, output_bad=b1, cpd=CPD_T)
+                jp = seq.index('P')
+                # 'P' has 5 fitted points (12/5 = 2.4 < 3): switch three of them off in place -> 12/2 = 6 >= 3: now bad
+                for q in (0, 1, 3):
+                    recs[jp].source.valid[q] = 0
+                filter_output(recs, output_good=g2, output_bad=b2, cpd=CPD_T)
+                good2 = _read(g2)
+                rec.trans(2)
+                rec.ev()
+                rec.cls('flags-edited-in-place-between-calls')
+                want_c = canon(_strip(recs[jp]))
+                if any(canon(_strip(r_)) == want_c for r_ in good2):
+                    rec.violation('filter_output|stale-n_data|cpd', {'seq': seq, 'live': True}, {'problem': 'after three fitted points were switched off in place the source has chi2/n = 6 >= 3 but still went to the good file'})
+            except Exception as e:
+                from mc.runner import exc_signature
+                rec.violation('filter_output|live|' + exc_signature(e), {'seq': seq, 'live': True}, {'type': type(e).__name__, 'msg': str(e)[:300]})
         if si == 7:
             rec.sample({'sequence': seq, 'kinds': {k: {'best_chi2': v[0], 'n_data': sum(1 for q in v[1] if q in (1, 4))} for k, v in KINDS.items()}, 'thresholds': {'chi': CHI_T, 'cpd': CPD_T}})
